@@ -14,6 +14,11 @@ Fixpoint value_of (acc : Z) (ds : list Z) : Z :=
   | d :: r => value_of (acc * 10 + d) r
   end.
 
+(* a numeral denotes its decimal value, capped at 2^31-1 (longer numerals read as 2^31-1: the implementation
+   saturates so that later arithmetic cannot overflow; LengthP.numeral_cap_is_code ties the constant to the code) *)
+Definition numeral_cap : Z := 2147483647.
+Definition numeral (ds : list Z) : Z := Z.min (value_of 0 ds) numeral_cap.
+
 (* one part:  [%]? [-]? digits? dots *)
 Record atom := mkAtom {
   a_step : bool;          (* written with '%': the number is a tick count *)
@@ -50,7 +55,7 @@ Definition print (e : expr) : list Z := print_atom (fst e) ++ flat_map print_par
 (* k dots add the successive halves of the undotted value, truncated toward zero as a whole *)
 Definition dotted (k : nat) (x : Z) : Z := x + Z.quot (x * (2 ^ Z.of_nat k - 1)) (2 ^ Z.of_nat k).
 
-Definition signed (a : atom) : Z := (if a_neg a then -1 else 1) * value_of 0 (a_num a).
+Definition signed (a : atom) : Z := (if a_neg a then -1 else 1) * numeral (a_num a).
 
 (* value of the head: omitted = default; %t = t ticks; n = whole note / n (0 when n <= 0) *)
 Definition dhead (tb d : Z) (a : atom) : Z :=
